@@ -34,7 +34,7 @@ func fragStmts(body []ast.Stmt, where string) []string {
 						} else if src(c.Args[2]) != "token.NoPos" {
 							break
 						}
-						out = append(out, "GTok "+pos)
+						out = append(out, fmt.Sprintf("GTok (%s) %s", tokOf(c.Args[1], "n", where), pos))
 						ok = true
 					}
 				case "f.addStringFragment":
@@ -48,7 +48,7 @@ func fragStmts(body []ast.Stmt, where string) []string {
 					}
 				case "f.addBadFragment":
 					if len(c.Args) == 3 {
-						if p, o := cpathOf(c.Args[1], "n"); o {
+						if p, o := cpathOf(c.Args[1], "n"); o && src(c.Args[2]) == "int(n.To - n.From)" {
 							out = append(out, "GBad "+qlist(p))
 							ok = true
 						}
@@ -79,7 +79,7 @@ func fragStmts(body []ast.Stmt, where string) []string {
 				}
 				if !ok {
 					inner := fragStmts(s.Body.List, where)
-					out = append(out, fmt.Sprintf("GIf %s [%s]", q(src(s.Cond)), strings.Join(inner, "; ")))
+					out = append(out, fmt.Sprintf("GIf (%s) [%s]", condOf(s.Cond, "n", where), strings.Join(inner, "; ")))
 					ok = true
 				}
 			}
@@ -135,6 +135,29 @@ func genFrag() {
 		}
 	}
 	b.WriteString("].\n\n")
-	fmt.Fprintf(&b, "Definition frag_frame_ok : bool := %v.\n", frame)
+	fmt.Fprintf(&b, "Definition frag_frame_ok : bool := %v.\n\n", frame)
+	// which go/ast kinds are statements / declarations (link()'s type assertions)
+	af := parseNoComments(filepath.Join(goroot(), "go/ast/ast.go"))
+	var stmts, decls []string
+	if af != nil {
+		for _, d := range af.Decls {
+			fd, ok := d.(*ast.FuncDecl)
+			if !ok || fd.Recv == nil || len(fd.Recv.List) != 1 {
+				continue
+			}
+			k := strings.TrimPrefix(src(fd.Recv.List[0].Type), "*")
+			switch fd.Name.Name {
+			case "stmtNode":
+				stmts = append(stmts, q(k))
+			case "declNode":
+				decls = append(decls, q(k))
+			}
+		}
+	}
+	if len(stmts) == 0 || len(decls) == 0 {
+		noteUnknown("go/ast/ast.go", "stmtNode / declNode methods not found")
+	}
+	fmt.Fprintf(&b, "Definition ast_stmt_kinds : list string := [%s].\n", strings.Join(stmts, "; "))
+	fmt.Fprintf(&b, "Definition ast_decl_kinds : list string := [%s].\n", strings.Join(decls, "; "))
 	writeIfChanged("FragTbl.v", b.String())
 }
